@@ -59,7 +59,7 @@ func loadFacts(dir string) (*factSet, error) {
 		if i := strings.Index(head, "package "); i >= 0 {
 			head = head[:i]
 		}
-		if strings.Contains(head, "go:build") && !strings.Contains(head, "linux") {
+		if strings.Contains(head, "go:build") && !strings.Contains(head, "linux") && !strings.Contains(head, "go:build !windows") {
 			continue // files for other platforms
 		}
 		f, err := parser.ParseFile(fs.fset, filepath.Join(dir, n), src, 0) // comments are not facts
@@ -702,6 +702,35 @@ func (fs *factSet) smallBodies(names ...string) {
 	}
 }
 
+// ancillaryFuncs: see collectFacts.
+var ancillaryFuncs = []string{
+	"NewProgram", "Program.handlePanic", "channelHandlers.add", "startupOptions.has",
+	"WithContext", "WithOutput", "WithInput", "WithInputTTY", "WithEnvironment", "WithoutSignalHandler", "WithoutCatchPanics",
+	"WithoutSignals", "WithAltScreen", "WithoutBracketedPaste", "WithMouseCellMotion", "WithMouseAllMotion", "WithoutRenderer",
+	"WithANSICompressor", "WithReportFocus",
+	"ClearScreen", "EnterAltScreen", "ExitAltScreen", "EnableMouseCellMotion", "EnableMouseAllMotion", "DisableMouse",
+	"HideCursor", "ShowCursor", "EnableBracketedPaste", "DisableBracketedPaste", "EnableReportFocus", "DisableReportFocus",
+	"SetWindowTitle", "WindowSize", "Quit", "Interrupt", "Suspend", "Println", "Printf", "Sequentially",
+	"Program.EnterAltScreen", "Program.ExitAltScreen", "Program.EnableMouseCellMotion", "Program.DisableMouseCellMotion",
+	"Program.EnableMouseAllMotion", "Program.DisableMouseAllMotion", "Program.SetWindowTitle",
+	"Program.Start", "Program.StartReturningModel",
+	"newInputReader", "readInputs", "openInputTTY", "suspendProcess", "MouseEvent.IsWheel",
+	"standardRenderer.setWindowTitle", "standardRenderer.execute", "standardRenderer.lastLinesRendered",
+	"standardRenderer.altScreen", "standardRenderer.bracketedPasteActive", "standardRenderer.reportFocus",
+}
+
+// bodiesOfType: one inventory fact with `method|normalised body` for every method of a type
+// (the nil renderer: every method must stay an empty body or a constant).
+func (fs *factSet) bodiesOfType(typ string) {
+	key := "bodies." + typ
+	fs.lists[key] = []string{}
+	for n, fd := range fs.funcs {
+		if strings.HasPrefix(n, typ+".") && fd.Body != nil {
+			fs.add(key, strings.TrimPrefix(n, typ+".")+"|"+fs.text(fd.Body))
+		}
+	}
+}
+
 func (fs *factSet) signature(fn string) {
 	fd, ok := fs.funcs[fn]
 	if !ok {
@@ -798,6 +827,13 @@ func collectFacts(dir string) (*factSet, error) {
 		"standardRenderer.clearScreen", "standardRenderer.enterAltScreen", "standardRenderer.exitAltScreen",
 		"readAnsiInputs", "detectOneMsg", "detectSequence", "detectBracketedPaste", "isIncompleteEvent",
 		"parseSGRMouseEvent", "parseX10MouseEvent", "parseMouseButton", "Key.String")
+	// ancillary functions: small, outside the models' statement-by-statement mirrors, but each one decides
+	// something a model takes for granted (what a fresh Program consists of, which start-up option sets which
+	// bit, which message a mode command carries, that the renderer of WithoutRenderer does nothing, how the
+	// input is opened and wrapped, what the panic handler does). Round 15 missed two changes that lived
+	// entirely in such functions; since round 16 their normalised text is a fact of the properties that rest on them.
+	fs.smallBodies(ancillaryFuncs...)
+	fs.bodiesOfType("nilRenderer")
 	fs.signature("Program.Run")
 	// the method set of the wrapper ExecProcess hands to exec: Run (and everything else) must be
 	// os/exec's own, promoted from the embedded *exec.Cmd; only the three Set… methods are the library's
